@@ -220,6 +220,35 @@ def classify(spec) -> list:
                     if isinstance(e, dict) and any('list' not in nm[m].get('deg', {'list': [1]}) and
                                                    nm[m]['deg'].get('max') is None for m in e['members']):
                         flags.add('conn_grp_open_ended')
+    # a connection choice one side of which can never exist (incompatible with a permanent node, or only reachable
+    # through such nodes) while the other side can
+    dead = set()
+    for a, b in spec['incompat']:
+        if a in perm and b not in perm:
+            dead.add(b)
+        if b in perm and a not in perm:
+            dead.add(a)
+    if dead and spec['conn']:
+        changed = True
+        while changed:
+            changed = False
+            for u, vs in succ.items():
+                if u not in dead and vs & dead:
+                    dead.add(u)
+                    changed = True
+        live_graph = {u: {v for v in vs if v not in dead} for u, vs in full.items() if u not in dead}
+        alive = {s0 for s0 in spec['start'] if s0 not in dead}
+        for s0 in list(alive):
+            alive |= reach(s0, live_graph)
+        for k in spec['conn']:
+            sides = []
+            for side in ('src', 'tgt'):
+                names = []
+                for e in k[side]:
+                    names += e['members'] if isinstance(e, dict) else [e]
+                sides.append(any(nme in alive for nme in names))
+            if sides[0] != sides[1]:
+                flags.add('conn_side_dead')
     for n in spec['nodes']:
         if n['kind'] == 'dv':
             flags.add('dv_disc' if 'options' in n else 'dv_cont')
@@ -235,18 +264,30 @@ def classify(spec) -> list:
             if c['type'] in ('UNORDERED', 'UNORDERED_NOREPL'):
                 for i in range(len(order)):
                     for j in range(i + 1, len(order)):
-                        # choice j can become active before choice i unless it sits below an option of choice i
-                        j_below_i = any(origs[j] == o or origs[j] in reach(o, full)
-                                        for o in sel_by_key[order[i]]['options'])
-                        if origs[i] not in perm and not j_below_i:
+                        # choice j can become active before choice i unless it can only be reached through an option
+                        # edge of choice i
+                        wo = {k: set(v) for k, v in succ.items()}
+                        for c2 in spec['sel']:
+                            if c2['key'] != order[i]:
+                                wo.setdefault(c2['origin'], set()).update(c2['options'])
+                        j_without_i = origs[j] in spec['start'] or any(origs[j] in reach(s0, wo)
+                                                                       for s0 in spec['start'])
+                        if origs[i] not in perm and j_without_i:
                             flags.add('con_order_later_active_first')
             if c['type'] == 'PERMUTATION' and len(order) > max(len(sel_by_key[k]['options']) for k in order) \
                     and not all(o in perm for o in origs):
                 flags.add('con_perm_short')
+    pred = {}
+    for u, v in dedges:
+        pred.setdefault(v, set()).add(u)
     for c in spec['constraints']:
         flags.add('con_' + c['type'].lower())
         if all(x in nm for x in c['choices']):
             flags.add('dv_linked')
+            # members that are not always present together (one can exist without the other)
+            if not all(x in perm for x in c['choices']) and \
+                    len({frozenset(pred.get(x, ())) for x in c['choices']}) > 1:
+                flags.add('dv_linked_split')
         else:
             origs = [origin_of[x] for x in c['choices'] if x in origin_of]
             if all(o in perm for o in origs):
